@@ -924,6 +924,9 @@ func StrContains(s, sub *Term) *Term {
 	return mk("str.contains", BoolS, s, sub)
 }
 func StrSubstr(s, off, n *Term) *Term {
+	if off.Op == "int" && off.IVal.Sign() == 0 && n.Op == "str.len" && n.Args[0] == s {
+		return s
+	}
 	if s.Op == "str" && off.Op == "int" && n.Op == "int" {
 		o, l := int(off.IVal.Int64()), int(n.IVal.Int64())
 		if o >= 0 && l >= 0 && o <= len(s.SVal) {
